@@ -36,6 +36,9 @@ class World:
         self.param_calls = []  # (task, client_index, ordinal)
         self.created_clients = []
         self.faults = {}
+        self.api_keys = []  # names of the API keys created through the synchronous client (create_api_key_per_client)
+        self.api_keys_deleted = []
+        self.cluster_down = False  # the cluster is gone: every call of a synchronous client fails with a connection error
         self.max_requests = 200_000  # a scenario that issues more requests than this never ends as far as the harness is concerned
 
     # ------------------------------------------------------------------ scripts
@@ -68,7 +71,15 @@ class SimEs(RequestContextHolder):
             proc=kernel.current_proc.get(),
         )
         try:
-            await asyncio.sleep(service_time)
+            if service_time >= 1 / 64:
+                # the real client's trace hooks signal the end of a request when the response headers are in and again for every chunk
+                # of the body: the request ends with the last of these signals
+                await asyncio.sleep(service_time * 0.75)
+                self.on_request_end()
+                entry["pc_header_end"] = w.clock.perf_counter()
+                await asyncio.sleep(service_time * 0.25)
+            else:
+                await asyncio.sleep(service_time)
         except asyncio.CancelledError:
             # torn down while on the wire (a cancelled stream of a composite): sent, never answered
             entry.update(t_end=w.clock.now, pc_end=w.clock.perf_counter(), cancelled=True)
@@ -82,9 +93,35 @@ class SimEs(RequestContextHolder):
     async def close(self):
         self.closed = True
 
-    # used by the synchronous side (Driver.create_es_clients / telemetry) – never called with static checks skipped
+    # used by the synchronous side (Driver.create_es_clients / telemetry / API keys) – never called with static checks skipped
+    is_serverless = False
+
+    def _sync_call(self):
+        if WORLD.cluster_down:
+            raise elasticsearch.ConnectionError("sim: the cluster is gone")
+
     def info(self, *a, **kw):
+        self._sync_call()
         return {"version": {"number": "8.0.0", "build_flavor": "default", "build_hash": "abc"}}
+
+    @property
+    def security(self):
+        return _Security(self)
+
+
+class _Security:
+    def __init__(self, es):
+        self.es = es
+
+    def create_api_key(self, name=None, **kw):
+        self.es._sync_call()  # pylint: disable=protected-access
+        WORLD.api_keys.append(name)
+        return {"id": f"key-{len(WORLD.api_keys)}", "name": name, "api_key": "sim-secret"}
+
+    def invalidate_api_key(self, ids=None, **kw):
+        self.es._sync_call()  # pylint: disable=protected-access
+        WORLD.api_keys_deleted.extend(ids or [])
+        return {"invalidated_api_keys": list(ids or []), "error_count": 0, "error_details": []}
 
 
 class SimEsFactory:
@@ -216,6 +253,8 @@ class SimRunner:
         fault = w.faults.get("runner")
         if fault and fault["task"] == task and fault["client"] == client and fault["ordinal"] == ordinal:
             fault["fired_at"] = w.clock.now
+            if fault.get("cluster_down"):
+                w.cluster_down = True  # the request fails because the cluster has died: nobody reaches it any more
             spec = dict(spec, outcome=fault["outcome"])
             entry["outcome"] = fault["outcome"]
         if spec.get("pre"):
